@@ -20,7 +20,41 @@ MD_IDENT = (
     "<core::ptr::non_null::NonNull<T> as unsize::CoerciblePtr<U>>::replace_ptr",
     "<*mut T as unsize::CoerciblePtr<U>>::replace_ptr",
     "core::ptr::read",
+    "<core::mem::manually_drop::ManuallyDrop<T>>::take",
 )
+
+
+def offset_fns(F):
+    """Role: the function(s) mapping a payload pointer to the payload's offset inside its block - identified by use (its result is
+    what `byte_sub` takes off a raw payload pointer), wherever it lives (method of the block type or a free function)."""
+    c = F.__dict__.get("_offset_fns")
+    if c is not None:
+        return c
+    out = set()
+    for b in F.body_list:
+        imp = b.get("impl") or {}
+        if imp and not imp.get("trait") and F.is_adt(imp["self_ty"], F.inner_path) and "output" in b and F.ts(b["output"]) == "usize" and b.get("inputs") and F.ty(b["inputs"][0])["k"] == "ptr":
+            out.add(b["key"])
+        B = None
+        for bl in b["blocks"]:
+            t = bl["term"]
+            if t["k"] != "call" or len(t.get("args", [])) != 2:
+                continue
+            r = t.get("resolved")
+            path = r["def"] if isinstance(r, dict) else (t.get("callee") or "")
+            if path not in ("<*const T>::byte_sub", "<*mut T>::byte_sub", "<*const T>::wrapping_byte_sub", "<*mut T>::wrapping_byte_sub"):
+                continue
+            if B is None:
+                B = cfg.Body(b)
+            o = B.origin(t["args"][1])
+            if o.get("kind") == "call":
+                r2 = o["term"].get("resolved")
+                k2 = r2["def"] if isinstance(r2, dict) else o["term"].get("callee")
+                b2 = F.body(k2) if k2 else None
+                if b2 is not None and "output" in b2 and F.ts(b2["output"]) == "usize" and len(b2.get("inputs", [])) == 1 and F.ty(b2["inputs"][0])["k"] in ("ptr", "ref"):
+                    out.add(k2)
+    F.__dict__["_offset_fns"] = out
+    return out
 
 
 class Norm:
@@ -152,8 +186,7 @@ class Norm:
                 return ("opaque", "%s(..)" % name)
             b = F.body(path)
             if b is not None:
-                imp = b.get("impl") or {}
-                if imp and F.is_adt(imp["self_ty"], F.inner_path) and F.ts(b["output"]) == "usize" and args:
+                if path in offset_fns(F) and args:
                     return ("offset_of", self.norm(args[0], argmap, depth + 1))
                 am = {i + 1: self.norm(a, argmap, depth + 1) for i, a in enumerate(args)}
                 return self.ret(path, am, depth + 1, self._gmap_for(path, e))
